@@ -11,3 +11,6 @@ func VerifClassicBPF(spec PacketFilterSpec) ([]bpf.RawInstruction, error) {
 
 // VerifSetPacketIDBase sets the process-wide IP-ID allocator base.
 func VerifSetPacketIDBase(v uint32) { curPacketID.Store(v) }
+
+// VerifDropAllFilter exposes the drop-all program used while draining a socket.
+func VerifDropAllFilter() []bpf.RawInstruction { return dropAllFilter }
